@@ -27,7 +27,9 @@ def split_top(s, sep=','):
 
 ITER_TYPES = {'ProdIter': 'TProd', 'WorkIter': 'TWork', 'ConsIter': 'TCons',
               'AsyncProdIter': 'TAProd', 'AsyncWorkIter': 'TAWork', 'AsyncConsIter': 'TACons',
-              'Detached': 'TDet', 'AsyncDetached': 'TADet'}
+              'Detached': 'TDet', 'AsyncDetached': 'TADet', 'MRBFuture': 'TFut'}
+# explicit Send / Sync impls for other types that are known and harmless: the cell is Sync only over Sync items
+OTHER_OK = {('UnsafeSyncCell', 'Sync')}
 KNOWN_BOUNDS = {'ConcurrentRB', 'MutRB', 'Send', 'Sync', 'MRBIterator', 'AsyncIterator', 'Sized', '?Sized', 'Storage', 'IterManager'}
 
 def extract_send_clauses():
@@ -40,8 +42,8 @@ def extract_send_clauses():
             rel = os.path.relpath(path, REPO)
             if ty not in ITER_TYPES:
                 other.append((rel, trait, ty))
-                if ty in ('BufRef',) or ty.endswith('MutRingBuf') or ty.endswith('Storage'):
-                    problems.append(f'{rel}: explicit {trait} impl for {ty}')
+                if (ty, trait) not in OTHER_OK or 'T: Sync' not in re.sub(r'\s+', ' ', gen):
+                    problems.append(f'{rel}: explicit {trait} impl for {ty} (a type outside the clause model)')
                 continue
             if neg: problems.append(f'{rel}: negative impl'); continue
             bounds = {}
@@ -73,7 +75,14 @@ def extract_send_clauses():
             item_send = any('Send' in bounds.get(t, ()) for t in item_params)
             item_sync = any('Sync' in bounds.get(t, ()) for t in item_params)
             inner_send = False
-            if ty in ('Detached', 'AsyncDetached') and targs:
+            if ty == 'MRBFuture':
+                # the future of an async operation borrows its iterator `I` mutably: whatever the header says about the buffer or the
+                # item (through I::B, I::I ...), what matters is whether it demands `I: Send`
+                allb = set().union(*bounds.values()) if bounds else set()
+                conc = 'ConcurrentRB' in allb
+                item_send = False; item_sync = False
+                inner_send = bool(targs) and 'Send' in bounds.get(targs[0], ())
+            elif ty in ('Detached', 'AsyncDetached') and targs:
                 inner_send = 'Send' in bounds.get(targs[0], ())
                 if 'Sync' in bounds.get(targs[0], ()): problems.append(f'{rel}: inner iterator bounded by Sync in impl for {ty}')
             else:
